@@ -381,6 +381,38 @@ class World:
             return any(v is not rec_ and v['kind'] == rec_['kind'] and v['t_call'] < rec_.get('t_ret', 1e99) and v.get('error', ('',))[0] == 'TimeoutError'
                        for v in results.values())
 
+        # ---- held back requests are released promptly: a request goes out on the wire as soon as no other request with the
+        # same key is outstanding - it waits for nothing else (a reply to a request with ANOTHER key, a later time-out).
+        # Measured at the client's socket (sent_log), not at the peer, which may be busy sleeping.
+        if first_drop is None and scen['fault'] in ('none', 'error-replies', 'silence-first') and not state.get('lazy') and s.status == 'ok':
+            wire = {}
+            for sock in self.sockmod.sockets:
+                for t, data in sock.sent_log:
+                    for line in data.split(b'\n'):
+                        try:
+                            a_, i_, pl_ = self.decode(line)
+                        except Exception:
+                            continue
+                        wire.setdefault((a_, json.dumps(pl_) if a_ != 'ping' else i_), t)
+            for key, rec_ in sorted(results.items()):
+                if rec_['kind'] == 'read-value' or 't_ret' not in rec_:
+                    continue
+                tok = rec_['tok']
+                wkey = {'change-target': ('change', json.dumps(float(tok))), 'change-p': ('change', json.dumps(tok)), 'ping': ('ping', f'tok{tok}'),
+                        'unknown': ('xyz', json.dumps(tok))}[rec_['kind']]
+                t_sent = wire.get(wkey)
+                if t_sent is None:
+                    continue          # (requests that never went out are judged below)
+                r.count('send_promptness_checked')
+                blockers = [v['t_ret'] + (1.2 if v.get('error', ('',))[0] == 'TimeoutError' else 0.0) for k2, v in results.items()
+                            if k2 != key and v['kind'] == rec_['kind'] and 't_ret' in v and v['t_call'] < t_sent and v['t_ret'] <= t_sent + 0.3]
+                # (+0.3: the receive thread releases the next request before the caller of the answered one has woken up)
+                allow = max([rec_['t_call']] + blockers) + 0.5
+                if t_sent > allow:
+                    r.violation('C11/request-held-back-although-its-key-was-free',
+                                f'caller {key} ({rec_["kind"]}) called at {rec_["t_call"] - self.D.T0:.2f}, the last request with the same key ended at '
+                                f'{max(blockers, default=rec_["t_call"]) - self.D.T0:.2f}, but its request went on the wire only at {t_sent - self.D.T0:.2f}', case)
+                    return
         for key, rec_ in sorted(results.items()):
             r.count('callers_checked')
             if 't_ret' not in rec_:
